@@ -382,6 +382,14 @@ def parseArray (floatOfText : List Char → Option UInt64) (elem : Option Ty) :
     | some t =>
       (parse floatOfText t x).bind fun r => (parseArray floatOfText elem xs).bind fun rs => .ok (r :: rs)
 
+/-- `FlatColumn(default=d)` (orso/schema.py:203-210): under the test extracted from the source
+(`if self.default:` today) the default is replaced by `run d` — the column type's cast, no options;
+otherwise it is kept as given.  `isInst`: whether `d` passes any `isinstance` test the guard mentions. -/
+def columnDefault (run : Option Val → Except Exc (Option Val)) (isInst : Bool) (d : Option Val) :
+    Except Exc (Option Val) :=
+  let truthy : Bool := match d with | none => false | some v => !v.falsy
+  if Gen.Cast.defaultGuard (truthy = true) (d.isNone = true) (isInst = true) then run d else .ok d
+
 /-- The class a cast to `t` must return. -/
 def Ty.cls (t : Ty) : String := (Gen.Cast.pythonClass.lookup t.name).getD "?"
 
